@@ -382,29 +382,38 @@ def rule_store_contract(ctx: Ctx, out: Collector) -> None:
             hide_methods.append(m)
     if not hide_methods:
         raise AnalysisError('re-arming composite (hide_last_execution) not found (SW-4 anchor vanished)')
+    import itertools as _it
     for m in hide_methods:
-        def run(oracle: Oracle, m=m):
-            contents = {s: {'K': ('visible', 1)} for s in stores}
-            storage = make_storage(p, st, contents)
-            interp = Interp(p, oracle)
-            interp.call_unit(m, ['K'], {}, storage)
-            return tuple((s, presence_of(storage.attrs[s], 'K')) for s in stores)
-
-        outcomes = enumerate_outcomes(run)
-        cons = f'{m.module.name}::{m.qualname}::hides the node in every store the run path reads'
+        # every combination of the node's state in the stores (a synthetic switch node has a verdict but no processed mark,
+        # an unselected case nothing at all), re-armed alone and together with a second node that is visible everywhere
         bad = []
-        for o in outcomes:
-            if o[0] != 'value':
-                bad.append(f'raises {o[1]}')
-                continue
-            for s, pres in o[1]:
-                if pres == 'visible':
-                    bad.append(s)
+        n_states = 0
+        for combo in _it.product(('absent', 'hidden', 'visible'), repeat=len(stores)):
+            for ids in (('K',), ('K', 'L'), ('L', 'K')):
+                def run(oracle: Oracle, m=m, combo=combo, ids=ids):
+                    contents = {s: ({'K': (pres, 1)} if pres != 'absent' else {}) for s, pres in zip(stores, combo)}
+                    for s in stores:
+                        contents[s]['L'] = ('visible', 1)
+                    storage = make_storage(p, st, contents)
+                    interp = Interp(p, oracle)
+                    interp.call_unit(m, list(ids), {}, storage)
+                    return tuple((s, k, presence_of(storage.attrs[s], k)) for s in stores for k in ids)
+                n_states += 1
+                for o in enumerate_outcomes(run):
+                    if o[0] != 'value':
+                        bad.append(f'raises {o[1]}')
+                        continue
+                    for s, k, pres in o[1]:
+                        if pres == 'visible':
+                            state = ', '.join(f'{s2} {p2}' for s2, p2 in zip(stores, combo))
+                            bad.append(f'{s} (node with {state})' if k == 'K' else f'{s} (second node of the call)')
+        cons = f'{m.module.name}::{m.qualname}::hides the node in every store the run path reads'
         if not bad:
-            out.ok('SW-4', cons, p.loc(m, m.node), f'after re-arming, the node is hidden in {", ".join(stores)}', stores=stores)
+            out.ok('SW-4', cons, p.loc(m, m.node), f'after re-arming, the node is hidden in {", ".join(stores)} - {n_states} store states',
+                   stores=stores)
         else:
             out.bad('SW-4', cons, p.loc(m, m.node),
-                    f'after re-arming a node for the next iteration it is still visible in {", ".join(sorted(set(bad)))}: readiness / '
+                    f'after re-arming a node for the next iteration it is still visible in {"; ".join(sorted(set(bad))[:3])}: readiness / '
                     f'routing of the new iteration is decided against the previous iteration\'s entry', stores=stores)
     # ST-1: publishers un-hide
     setters = []
